@@ -15,9 +15,11 @@ ENGINES = ["memkv", "badger", "tikv"]
 # a store whose election record is missing (fresh: the Create path) or was RELEASED by the previous leader (released: an
 # Update over a holder-less record); slowget = the started-leading callback consults the lock before the renew loop's first
 # poll has re-read the record (the order of the two goroutines on a networked engine)
-REAL_OPTS = {"plain": "", "tso": " f=tso", "mtso": " f=tso", "fresh": " fresh=1 f=tsoslow", "slow": " f=tsoslow", "tso2": " f=tso2",
+# burst: the old leader hands out thousands of revisions within a fraction of a second before the take-over (the engine clock
+# must have advanced by more than the revisions issued: nanoseconds / PD's 18 logical bits per millisecond do, milliseconds would not)
+REAL_OPTS = {"burst": "", "plain": "", "tso": " f=tso", "mtso": " f=tso", "fresh": " fresh=1 f=tsoslow", "slow": " f=tsoslow", "tso2": " f=tso2",
              "released": " released=1 slowget=1", "freshslow": " fresh=1 slowget=1", "plainslow": " slowget=1"}
-REALS = [None, "plain", "tso", "fresh", "slow", "tso2", "released", "freshslow", "mtso", "plainslow"]
+REALS = [None, "plain", "tso", "fresh", "slow", "tso2", "released", "freshslow", "mtso", "plainslow", "burst"]
 
 
 def gen_case(seed, i, engine, heavy_failures, real=None):
@@ -32,6 +34,9 @@ def gen_case(seed, i, engine, heavy_failures, real=None):
     if heavy_failures:
         for _ in range(r.randint(5, 30)):
             lines.append("delete %s 0" % hx(PREFIX + b"/nonexistent"))
+    if real == "burst":
+        # (keys outside the listed range: the lists of the script stay small)
+        lines.append("bulk %d %s %s" % (r.randint(5000, 9000), hx(b"/q/b"), hx(b"v")))
     lines.append("settle")
     lines += ["get %s 0" % hx(k) for k in keys]
     lines.append("list %s %s 0 0" % (hx(PREFIX + b"/"), hx(PREFIX + b"0")))
@@ -99,6 +104,8 @@ def oracle(case):
                     max_rev_seen = max(max_rev_seen, kv[2])
             if t[0] in ("create", "update", "delete") and o[1] == "ok":
                 max_rev_seen = max(max_rev_seen, int(o[2]))
+            if t[0] == "bulk" and len(o) == 2 and o[1].isdigit():
+                max_rev_seen = max(max_rev_seen, int(o[1]))
         if phase == 2:
             if t[0] == "list" and before_list is not None and o[1] != "err":
                 got = o[3] if len(o) > 3 else "-"
